@@ -21,14 +21,14 @@ P("C03", ["error message texts"])
 P("C04", ["wrapper body addr_of!((*self.vftable()).name).read() (quote!)", "execution of the emitted wrapper"])
 P("C05", ["wrapper text (hex literal, transmute, argument forwarding) and its execution"])
 P("C06", ["the accessor text self.<base>.vftable() as *const ..."])
-P("C07", ["forwarding method text (rust.rs:528-574)", "AsRef/AsMut emission and duplicate suppression (rust.rs:287-378)", "TypeDefinition::dfs_hierarchy (recursion through the registry: termination needs the acyclicity of by-value embedding, not expressible as a decreases clause on one call)", "members a base inherited itself are covered only through the base's own associated functions (the statement about one type composes over the hierarchy by induction on resolution order, which is not proved)"])
+P("C07", ["forwarding method text (rust.rs:528-574)", "AsRef/AsMut emission and duplicate suppression (rust.rs:287-378)", "termination of TypeDefinition::dfs_hierarchy (recursion through the registry: needs the acyclicity of by-value embedding, not expressible as a decreases clause on one call; its result is specified for every terminating call)", "members a base inherited itself are covered only through the base's own associated functions (the statement about one type composes over the hierarchy by induction on resolution order, which is not proved)"])
 P("C08", ["repr(T), `Name = value as _`, #[default] placement (quote!)", "literal parsing (syn)"])
-P("C10", ["progress direction (acyclic and defined => eventually resolved) and termination of the outer loop: whole-history argument over HashMap iteration order"])
-P("C11", ["fully_qualified_type_ref_impl (write! into String, no formatting model)"])
+P("C10", ["progress of the whole loop (acyclic and defined => eventually resolved) and its termination: whole-history argument over HashMap iteration order; proved per attempt only (a deferral has a reason that resolving the dependencies removes)", "the loop over modules.values_mut() that resolves the extern values is a trusted segment (vstd has no model of HashMap::values_mut)"])
+P("C11", ["what syn::parse_str / quote! / prettyplease do with the verified type text", "write! into the String goes through trusted wrappers (same literal; Display of a path read off grammar.rs and assumed)", "the precondition `printable` of the type printer is assumed at its unverified call sites"])
 P("C12", ["parser (syn)", "add_file position text", "backend (format_ident!, lines().nth().unwrap())", "file system", "memory/time proportionality", "stack depth"])
 P("C14", ["glob, file naming, prologue/epilogue join, sort, build_item category switch"])
 P("C15", ["accessor text (one vs no indirection) and execution"])
-P("C16", ["the two printers (rust.rs:553-563, 639-652)"])
+P("C16", ["the wrapper printer (rust.rs:553-563, quote!)", "what syn::parse_str does with the verified text of the type printer (rust.rs:639-652)"])
 P("C17", ["visibility_to_tokens, derive list, repr tokens, doc_to_tokens"])
 P("C19", ["per-module printing; the relational statement over whole builds is not proved"])
-P("C20", ["a number in another base (syn literal parsing)", "byte-identity of the file (backend sort and printing)"])
+P("C20", ["a number in another base (syn literal parsing)", "byte-identity of the file (backend sort and printing)", "replacing an unknown<N> gap by an address on the following field: equal only after finalisation of the generated regions; covered by the functional spec regions_spec and the bounded pairs, no separate lemma"])
